@@ -25,7 +25,7 @@ import (
 
 func TestMain(m *testing.M) {
 	stats.Init("C02")
-	stats.Rule("(A) pattern in {pair,xpair,pair1,xpair1,push/pull,xpush/xpull} x read/write queue lengths in {0,1,2,16,128} set before connecting x 1-4 sender goroutines x 1-60 messages x 1-4 PULL peers x transport {inproc,tcp,ipc} x optional fault (a PULL peer or the PAIR peer closes mid-stream); (B) PAIR server with 1 peer and 1-3 intruding asynchronous dialers. Also: 1-3 receiving goroutines per socket; non-queue options re-set to their own values during traffic; (C) burst rounds of barrier-released one-message senders; (D) only peer stalls, is lost and replaced; PAIR stand-by peers dialled by the server. Non-trivial: >=2 senders, or >=2 peers, or a fault, or a queue length in {0,1}; distinct by the full configuration")
+	stats.Rule("(A) pattern in {pair,xpair,pair1,xpair1,push/pull,xpush/xpull} x read/write queue lengths in {0,1,2,16,128} set before connecting x 1-4 sender goroutines x 1-60 messages x 1-4 PULL peers x transport {inproc,tcp,ipc,ws,tls+tcp} x optional fault (a PULL peer or the PAIR peer closes mid-stream); (B) PAIR server with 1 peer and 1-3 intruding asynchronous dialers. Also: 1-3 receiving goroutines per socket; non-queue options re-set to their own values during traffic; (C) burst rounds of barrier-released one-message senders; (D) only peer stalls, is lost and replaced; PAIR stand-by peers dialled by the server. Non-trivial: >=2 senders, or >=2 peers, or a fault, or a queue length in {0,1}; distinct by the full configuration")
 	rc := m.Run()
 	stats.Flush()
 	fixture.Cleanup()
@@ -57,7 +57,7 @@ type rec struct {
 func TestC02Delivery(t *testing.T) {
 	rapid.Check(t, func(t *rapid.T) {
 		p := rapid.SampledFrom(pats).Draw(t, "pattern")
-		tr := rapid.SampledFrom([]string{"inproc", "inproc", "inproc", "tcp", "ipc"}).Draw(t, "transport")
+		tr := rapid.SampledFrom([]string{"inproc", "inproc", "inproc", "tcp", "ipc", "ws", "tls+tcp"}).Draw(t, "transport")
 		qs := []int{0, 1, 2, 16, 128}
 		wq := rapid.SampledFrom(qs).Draw(t, "writeq")
 		rq := rapid.SampledFrom(qs).Draw(t, "readq")
